@@ -428,9 +428,26 @@ def _emissions(node):
 
 # ==========================================================================================
 # C10
+def _preamble_decided_by_evaluation(ctx) -> bool:
+    from .rules_ids import preamble_verdict
+    try:
+        return len(preamble_verdict(ctx)) == 2
+    except AnalysisError:
+        return False
+
+
 def rule_preamble_pairing(ctx, rep: Report, rid="T1"):
     ci, prog = mw(ctx)
     gp = prog.method("MatlabWrapper", "generate_preamble")
+    if _preamble_decided_by_evaluation(ctx):
+        from .rules_ids import preamble_verdict
+        v = preamble_verdict(ctx)
+        probs = [p for ps in v.values() for p in ps]
+        rep.add(rid, "preamble:collector, clean-up block and RTTI entry per class (generate_preamble run on sample classes)", not probs,
+                f"{probs[:3]}: a collector without its clean-up entry leaks at unload, a clean-up entry without collector does not compile, a virtual class "
+                f"that is not registered is handed back to MATLAB as its base class", f"{ci.mod.rel}:{gp.lineno}")
+        _preamble_add_class_part(ctx, rep, rid)
+        return
     loops = [l for l in gp.body if isinstance(l, ast.For) and unparse(l.iter) == "self.classes"]
     if len(loops) != 1:
         raise AnalysisError("generate_preamble: loop over self.classes not found")
@@ -466,6 +483,11 @@ def rule_preamble_pairing(ctx, rep: Report, rid="T1"):
     rep.add(rid, "preamble:clean-up fragments are spliced into _deleteAllObjects, RTTI lines into the registry function",
             "WrapperTemplate.delete_all_objects.format(delete_objs=" in txt.replace(" ", "").replace("\n", "").replace("delete_objs=delete_objs", "delete_objs=")
             or "delete_all_objects.format(" in txt, "", f"{ci.mod.rel}:{gp.lineno}", nontrivial=False)
+    _preamble_add_class_part(ctx, rep, rid)
+
+
+def _preamble_add_class_part(ctx, rep: Report, rid: str):
+    ci, prog = mw(ctx)
     # add_class for every instantiated class at every depth
     wn = prog.method("MatlabWrapper", "wrap_namespace")
     br = None
